@@ -1,6 +1,1288 @@
-//! C13 — stub (monitor not built yet).
-use crate::core::Ctx;
+//! C13 — prefixes, max-length prefixes and AS-number sets obey their value
+//! laws.
+//!
+//! Oracle: a prefix is modelled here as (family, network bits, length) with
+//! its address range computed by integer arithmetic in the family's own
+//! width; `covers` is range inclusion on that model; the order is judged by
+//! the order *laws* (antisymmetry, transitivity, Equal <=> ==, equal => equal
+//! hash, more specific before covering), not by a re-implementation; AS sets
+//! are judged against `BTreeSet<u32>`.
+
+use crate::core::{Ctx, Rng, Stage, Tier};
+use rpki::resources::addr::{MaxLenPrefix, Prefix};
+use rpki::resources::asn::{Asn, SmallAsnSet};
+use rpki::rtr::payload::RouteOrigin;
+use serde_json::{json, Value};
+use std::cmp::Ordering;
+use std::collections::hash_map::DefaultHasher;
+use std::collections::{BTreeSet, HashSet};
+use std::hash::{Hash, Hasher};
+use std::net::{IpAddr, Ipv4Addr, Ipv6Addr};
+use std::str::FromStr;
+
+//------------ model ----------------------------------------------------------
+
+/// Model prefix. `bits` is the address as an integer of the family's width
+/// (32 or 128 bits), host bits zero.
+#[derive(Clone, Copy, Debug, PartialEq, Eq, Hash, PartialOrd, Ord)]
+struct MP {
+    v6: bool,
+    bits: u128,
+    len: u8,
+}
+
+fn fam_max(v6: bool) -> u8 {
+    if v6 { 128 } else { 32 }
+}
+
+fn full(v6: bool) -> u128 {
+    if v6 { u128::MAX } else { 0xFFFF_FFFF }
+}
+
+/// The bits a prefix of `len` leaves to hosts.
+fn host_mask(v6: bool, len: u8) -> u128 {
+    let w = fam_max(v6);
+    if len >= w {
+        0
+    } else {
+        // len < w <= 128, so the shift is in range; for v4 the value is a 32-bit quantity
+        full(v6) >> len
+    }
+}
+
+impl MP {
+    fn new_masked(v6: bool, addr: u128, len: u8) -> MP {
+        MP { v6, bits: addr & !host_mask(v6, len) & full(v6), len }
+    }
+    fn min(&self) -> u128 {
+        self.bits
+    }
+    fn max(&self) -> u128 {
+        self.bits | host_mask(self.v6, self.len)
+    }
+    fn covers(&self, o: &MP) -> bool {
+        self.v6 == o.v6 && self.min() <= o.min() && o.max() <= self.max()
+    }
+    fn addr(&self) -> IpAddr {
+        to_addr(self.v6, self.bits)
+    }
+    fn text(&self) -> String {
+        format!("{}/{}", self.addr(), self.len)
+    }
+}
+
+fn to_addr(v6: bool, bits: u128) -> IpAddr {
+    if v6 {
+        IpAddr::V6(Ipv6Addr::from(bits))
+    } else {
+        IpAddr::V4(Ipv4Addr::from(bits as u32))
+    }
+}
+
+fn from_addr(a: IpAddr) -> (bool, u128) {
+    match a {
+        IpAddr::V4(a) => (false, u32::from(a) as u128),
+        IpAddr::V6(a) => (true, u128::from(a)),
+    }
+}
+
+fn hash_of<T: Hash>(t: &T) -> u64 {
+    let mut h = DefaultHasher::new();
+    t.hash(&mut h);
+    h.finish()
+}
+
+/// Does the library value denote the model value?
+fn denotes(p: Prefix, m: &MP) -> bool {
+    p.is_v4() == !m.v6 && p.is_v6() == m.v6 && p.len() == m.len && from_addr(p.addr()) == (m.v6, m.bits)
+}
+
+fn len_class(v6: bool, len: u8) -> &'static str {
+    let w = fam_max(v6);
+    if len == 0 {
+        "0"
+    } else if len == 1 {
+        "1"
+    } else if len == w {
+        "max"
+    } else if len + 1 == w {
+        "max-1"
+    } else if len % 8 == 0 {
+        "octet"
+    } else if len % 8 == 7 || len % 8 == 1 {
+        "octet±1"
+    } else {
+        "mid"
+    }
+}
+
+fn nesting(a: &MP, b: &MP) -> &'static str {
+    if a.v6 != b.v6 {
+        "other-family"
+    } else if a == b {
+        "equal"
+    } else if a.covers(b) {
+        "a-covers-b"
+    } else if b.covers(a) {
+        "b-covers-a"
+    } else {
+        "disjoint"
+    }
+}
+
+fn pair_sig(law: &str, a: &MP, b: &MP) -> String {
+    format!(
+        "{law} {}{} len:{} nest:{} la={} lb={}",
+        if a.v6 { 6 } else { 4 },
+        if b.v6 { 6 } else { 4 },
+        match a.len.cmp(&b.len) {
+            Ordering::Less => "<",
+            Ordering::Equal => "=",
+            Ordering::Greater => ">",
+        },
+        nesting(a, b),
+        len_class(a.v6, a.len),
+        len_class(b.v6, b.len),
+    )
+}
+
+//------------ address pools --------------------------------------------------
+
+fn v4_pool(rng: &mut Rng, extra: usize) -> Vec<u32> {
+    let mut v = vec![
+        0x0000_0000, 0xFFFF_FFFF, 0x8000_0000, 0x7FFF_FFFF, 0x0000_0001, 0xFFFF_FFFE, 0x0A00_0000, 0x0AFF_FFFF,
+        0xC0A8_0101, 0x0102_0304, 0xAAAA_AAAA, 0x5555_5555, 0x0100_0000, 0x00FF_FFFF, 0x8000_0001, 0xC000_0200,
+    ];
+    for _ in 0..extra {
+        v.push(rng.next_u32());
+    }
+    v
+}
+
+fn v6_pool(rng: &mut Rng, extra: usize) -> Vec<u128> {
+    let mut v = vec![
+        0,
+        u128::MAX,
+        1 << 127,
+        (1 << 127) - 1,
+        1,
+        u128::MAX - 1,
+        0x2001_0db8_0000_0000_0000_0000_0000_0000,
+        0x2001_0db8_ffff_ffff_ffff_ffff_ffff_ffff,
+        0x0000_0000_0000_0000_0000_ffff_0000_0000, // ::ffff:0:0 (v4-mapped)
+        0x0000_0000_0000_0000_0000_ffff_c000_0201,
+        0xAAAA_AAAA_AAAA_AAAA_AAAA_AAAA_AAAA_AAAA,
+        0x5555_5555_5555_5555_5555_5555_5555_5555,
+        1 << 64,
+        (1 << 64) - 1,
+        1 << 63,
+        0xffff_ffff_ffff_ffff_0000_0000_0000_0000,
+        0x0000_0000_ffff_ffff_ffff_ffff_0000_0000,
+        0xfe80_0000_0000_0000_0000_0000_0000_0001,
+    ];
+    for _ in 0..extra {
+        v.push(rng.next_u128());
+    }
+    v
+}
+
+//------------ findings -------------------------------------------------------
+
+#[derive(Default)]
+struct Findings(Vec<(String, String, Value)>);
+
+impl Findings {
+    fn push(&mut self, sig: &str, desc: String, detail: Value) {
+        if self.0.len() < 256 {
+            self.0.push((sig.to_string(), desc, detail));
+        }
+    }
+    fn flush(self, ctx: &mut Ctx) {
+        for (s, d, v) in self.0 {
+            ctx.violation(&s, &d, v);
+        }
+    }
+}
+
+//------------ 1. constructors ------------------------------------------------
+
+struct CtorStats {
+    evals: u64,
+    strict_ok: u64,
+    strict_err: u64,
+    relaxed_ok: u64,
+    relaxed_err: u64,
+    valid_rejected: u64,
+    text_roundtrips: u64,
+}
+
+/// All constructors for one (family, address, length).
+fn check_ctor(v6: bool, addr: u128, len: u8, with_text: bool, st: &mut CtorStats, f: &mut Findings) {
+    let ip = to_addr(v6, addr);
+    let in_range = len <= fam_max(v6);
+    let host_zero = addr & host_mask(v6, len) == 0;
+    let d = || json!({"addr": ip.to_string(), "len": len});
+    let fam = if v6 { "v6" } else { "v4" };
+    // strict: new() and the per-family function
+    let strict = [
+        Prefix::new(ip, len),
+        match ip {
+            IpAddr::V4(a) => Prefix::new_v4(a, len),
+            IpAddr::V6(a) => Prefix::new_v6(a, len),
+        },
+    ];
+    for r in strict.iter() {
+        st.evals += 1;
+        match r {
+            Ok(p) => {
+                st.strict_ok += 1;
+                if !in_range {
+                    f.push(&format!("C13:prefix-new-{fam}:length-beyond-family"), format!("Prefix::new accepted length {len}"), d());
+                } else if !host_zero {
+                    f.push(&format!("C13:prefix-new-{fam}:nonzero-host-bits-accepted"), "strict constructor accepted an address with host bits set".into(), d());
+                } else if !denotes(*p, &MP { v6, bits: addr, len }) {
+                    f.push(
+                        &format!("C13:prefix-new-{fam}:value-differs"),
+                        format!("constructed value reports {}/{} v4={}", p.addr(), p.len(), p.is_v4()),
+                        d(),
+                    );
+                }
+            }
+            Err(_) => {
+                st.strict_err += 1;
+                if in_range && host_zero {
+                    // the statement does not oblige acceptance; recorded only (the text
+                    // round trip below does demand that displayed values parse back)
+                    st.valid_rejected += 1;
+                }
+            }
+        }
+    }
+    if strict[0].is_ok() && strict[1].is_ok() && strict[0] != strict[1] {
+        f.push(&format!("C13:prefix-new-{fam}:new-vs-family-constructor"), "Prefix::new and new_v4/new_v6 construct different values".into(), d());
+    }
+    // relaxed
+    let relaxed = [
+        Prefix::new_relaxed(ip, len),
+        match ip {
+            IpAddr::V4(a) => Prefix::new_v4_relaxed(a, len),
+            IpAddr::V6(a) => Prefix::new_v6_relaxed(a, len),
+        },
+    ];
+    let want = MP::new_masked(v6, addr, len.min(fam_max(v6)));
+    for r in relaxed.iter() {
+        st.evals += 1;
+        match r {
+            Ok(p) => {
+                st.relaxed_ok += 1;
+                if !in_range {
+                    f.push(&format!("C13:prefix-relaxed-{fam}:length-beyond-family"), format!("relaxed constructor accepted length {len}"), d());
+                } else if !denotes(*p, &want) {
+                    f.push(
+                        &format!("C13:prefix-relaxed-{fam}:host-bits-not-cleared"),
+                        format!("relaxed constructor produced {}/{} instead of {}", p.addr(), p.len(), want.text()),
+                        d(),
+                    );
+                }
+            }
+            Err(_) => {
+                st.relaxed_err += 1;
+                if in_range {
+                    st.valid_rejected += 1;
+                }
+            }
+        }
+    }
+    if relaxed[0].is_ok() && relaxed[1].is_ok() && relaxed[0] != relaxed[1] {
+        f.push(&format!("C13:prefix-relaxed-{fam}:new-vs-family-constructor"), "Prefix::new_relaxed and new_v4_relaxed/new_v6_relaxed construct different values".into(), d());
+    }
+    // strict and relaxed agree on addresses without host bits
+    if let (Ok(s), Ok(r)) = (&strict[0], &relaxed[0]) {
+        if s != r || hash_of(s) != hash_of(r) || s.cmp(r) != Ordering::Equal {
+            f.push(&format!("C13:prefix-new-{fam}:strict-vs-relaxed"), "strict and relaxed construction of a host-free address differ".into(), d());
+        }
+    }
+    // text round trips
+    if with_text {
+        if let Ok(p) = &relaxed[0] {
+            st.evals += 1;
+            st.text_roundtrips += 1;
+            let text = p.to_string();
+            match Prefix::from_str(&text) {
+                Ok(q) if q == *p && hash_of(&q) == hash_of(p) && denotes(q, &want) => {}
+                other => f.push(
+                    &format!("C13:prefix-text-roundtrip-{fam}"),
+                    format!("Display gives {text:?}, which parses back to {other:?}"),
+                    d(),
+                ),
+            }
+            // relaxed text parser on the original (possibly host-bit carrying) address
+            st.evals += 1;
+            let raw = format!("{ip}/{len}");
+            match Prefix::from_str_relaxed(&raw) {
+                Ok(q) if q == *p => {}
+                Ok(q) => f.push(
+                    &format!("C13:prefix-text-relaxed-{fam}"),
+                    format!("from_str_relaxed({raw:?}) = {q}, relaxed construction gives {p}"),
+                    d(),
+                ),
+                Err(_) => st.valid_rejected += 1,
+            }
+            // the strict text parser must not accept host bits either
+            if !host_zero {
+                st.evals += 1;
+                if let Ok(q) = Prefix::from_str(&raw) {
+                    f.push(&format!("C13:prefix-text-{fam}:nonzero-host-bits-accepted"), format!("from_str({raw:?}) = {q}"), d());
+                }
+            }
+        } else if !in_range {
+            st.evals += 1;
+            let raw = format!("{ip}/{len}");
+            if let Ok(q) = Prefix::from_str(&raw) {
+                f.push(&format!("C13:prefix-text-{fam}:length-beyond-family"), format!("from_str({raw:?}) = {q}"), d());
+            }
+            if let Ok(q) = Prefix::from_str_relaxed(&raw) {
+                f.push(&format!("C13:prefix-text-{fam}:length-beyond-family"), format!("from_str_relaxed({raw:?}) = {q}"), d());
+            }
+        }
+    }
+}
+
+//------------ 2. domain for pair / triple laws --------------------------------
+
+struct DomEntry {
+    m: MP,
+    p: Prefix,
+    hash: u64,
+}
+
+const BOUNDARY_LENS_V6: [u8; 24] = [0, 1, 2, 7, 8, 9, 15, 16, 17, 31, 32, 33, 47, 48, 63, 64, 65, 95, 96, 97, 119, 126, 127, 128];
+
+/// Boundary-dense domain: chains /0../max through several addresses plus the
+/// sibling (last network bit flipped) of every chain element.
+fn build_domain(size: u8, rejected: &mut u64) -> Vec<DomEntry> {
+    // size: 0 = Miri (~40), 1 = quick, 2 = thorough
+    let v4_addrs: &[u32] = match size {
+        0 => &[0xAAAA_AAAA],
+        1 => &[0x0000_0000, 0xFFFF_FFFF, 0xAAAA_AAAA],
+        _ => &[0x0000_0000, 0xFFFF_FFFF, 0xAAAA_AAAA, 0x5555_5555, 0x0A0B_0C0D, 0x8000_0001],
+    };
+    let v6_full: &[u128] = match size {
+        0 => &[],
+        1 => &[0xAAAA_AAAA_AAAA_AAAA_AAAA_AAAA_AAAA_AAAA],
+        _ => &[0xAAAA_AAAA_AAAA_AAAA_AAAA_AAAA_AAAA_AAAA, u128::MAX],
+    };
+    let v6_boundary: &[u128] = match size {
+        0 => &[0x5555_5555_5555_5555_5555_5555_5555_5555],
+        1 => &[0, u128::MAX, 0x5555_5555_5555_5555_5555_5555_5555_5555],
+        _ => &[
+            0,
+            0x5555_5555_5555_5555_5555_5555_5555_5555,
+            0x2001_0db8_8000_0001_ffff_0000_1234_5678,
+            0x0000_0000_0000_0000_0000_ffff_c000_0201,
+            0x8000_0000_0000_0000_8000_0000_0000_0001,
+        ],
+    };
+    let v4_lens: Vec<u8> = match size {
+        0 => vec![0, 1, 7, 8, 9, 16, 24, 31, 32],
+        _ => (0..=32).collect(),
+    };
+    let v6_blens: Vec<u8> = match size {
+        0 => vec![0, 1, 8, 63, 64, 65, 127, 128],
+        _ => BOUNDARY_LENS_V6.to_vec(),
+    };
+    let mut set: BTreeSet<MP> = BTreeSet::new();
+    let mut add = |v6: bool, addr: u128, len: u8, sibling: bool| {
+        let m = MP::new_masked(v6, addr, len);
+        set.insert(m);
+        if sibling && len > 0 {
+            let bit = 1u128 << (fam_max(v6) - len);
+            set.insert(MP { v6, bits: m.bits ^ bit, len });
+        }
+    };
+    for &a in v4_addrs {
+        for &l in &v4_lens {
+            add(false, a as u128, l, true);
+        }
+    }
+    for &a in v6_full {
+        for l in 0..=128u8 {
+            add(true, a, l, size == 2 && BOUNDARY_LENS_V6.contains(&l));
+        }
+    }
+    for &a in v6_boundary {
+        for &l in &v6_blens {
+            add(true, a, l, true);
+        }
+    }
+    let mut out = Vec::new();
+    for m in set {
+        match Prefix::new(m.addr(), m.len) {
+            Ok(p) => out.push(DomEntry { m, p, hash: hash_of(&p) }),
+            Err(_) => *rejected += 1,
+        }
+    }
+    out
+}
+
+fn ord_i8(o: Ordering) -> i8 {
+    match o {
+        Ordering::Less => -1,
+        Ordering::Equal => 0,
+        Ordering::Greater => 1,
+    }
+}
+
+/// Checks the total-order laws on a matrix `cmp[i*n+j]` for rows i with
+/// `mine(i)`. `name(i)` renders an element. Returns the number of triples.
+fn transitivity(
+    n: usize,
+    cmp: &[i8],
+    mine: impl Fn(usize) -> bool,
+    sig: &str,
+    name: impl Fn(usize) -> String,
+    f: &mut Findings,
+) -> u64 {
+    let mut triples = 0u64;
+    for i in 0..n {
+        if !mine(i) {
+            continue;
+        }
+        for j in 0..n {
+            let ab = cmp[i * n + j];
+            for k in 0..n {
+                let bc = cmp[j * n + k];
+                let ac = cmp[i * n + k];
+                // a<=b and b<=c  =>  a<=c, strictly if one of them is strict
+                let bad = if ab <= 0 && bc <= 0 {
+                    if ab < 0 || bc < 0 { ac >= 0 } else { ac != 0 }
+                } else {
+                    false
+                };
+                if bad {
+                    f.push(sig, format!("cmp(a,b)={ab}, cmp(b,c)={bc} but cmp(a,c)={ac}"), json!({"a": name(i), "b": name(j), "c": name(k)}));
+                }
+            }
+            triples += n as u64;
+        }
+    }
+    triples
+}
+
+//------------ the monitor ----------------------------------------------------
 
 pub fn run(ctx: &mut Ctx) {
-    ctx.notes.push("C13: monitor not built yet".into());
+    let size: u8 = match (ctx.stage, ctx.tier) {
+        (Stage::Miri, _) => 0,
+        (Stage::Native, Tier::Thorough) => 2,
+        _ => 1,
+    };
+    let mut evals: u64 = 0;
+
+    //---- 1. constructors for every length 0..=255 ---------------------------
+    {
+        let mut rng = ctx.rng("ctor");
+        let extra = match ctx.stage {
+            Stage::Miri => 0,
+            Stage::Native if ctx.tier == Tier::Thorough => 400,
+            Stage::Native => 60,
+            _ => 20,
+        };
+        let p4 = v4_pool(&mut rng, extra);
+        let p6 = v6_pool(&mut rng, extra);
+        let mut st = CtorStats { evals: 0, strict_ok: 0, strict_err: 0, relaxed_ok: 0, relaxed_err: 0, valid_rejected: 0, text_roundtrips: 0 };
+        let mut idx: u64 = 0;
+        let miri = ctx.is_miri();
+        for (v6, addrs) in [(false, p4.iter().map(|a| *a as u128).collect::<Vec<_>>()), (true, p6.clone())] {
+            for (ai, &a) in addrs.iter().enumerate() {
+                // Miri: one address per family (the alternating bit pattern), four more in the thorough tier
+                if miri && ai != 10 && !(ctx.tier == Tier::Thorough && ai % 5 == 0) {
+                    continue;
+                }
+                idx += 1;
+                if !ctx.mine(idx) {
+                    continue;
+                }
+                let res = ctx.no_panic("prefix-constructors", || json!({"addr": to_addr(v6, a).to_string()}), || {
+                    let mut f = Findings::default();
+                    let mut local = CtorStats { evals: 0, strict_ok: 0, strict_err: 0, relaxed_ok: 0, relaxed_err: 0, valid_rejected: 0, text_roundtrips: 0 };
+                    for len in 0..=255u8 {
+                        // under Miri text formatting is the expensive part: only boundary lengths get it
+                        let with_text = !miri || len <= 2 || (30..=34).contains(&len) || (126..=130).contains(&len) || len == 255 || len == 64;
+                        // the address as given, and the address with its host bits removed (strict accepts)
+                        check_ctor(v6, a, len, with_text, &mut local, &mut f);
+                        if len <= fam_max(v6) {
+                            check_ctor(v6, a & !host_mask(v6, len), len, with_text, &mut local, &mut f);
+                            // exactly one host bit set, the highest and the lowest one
+                            if len < fam_max(v6) {
+                                let base = a & !host_mask(v6, len);
+                                check_ctor(v6, base | 1, len, false, &mut local, &mut f);
+                                check_ctor(v6, base | (1u128 << (fam_max(v6) - len - 1)), len, false, &mut local, &mut f);
+                            }
+                        }
+                    }
+                    (f, local)
+                });
+                if let Some((f, l)) = res {
+                    st.evals += l.evals;
+                    st.strict_ok += l.strict_ok;
+                    st.strict_err += l.strict_err;
+                    st.relaxed_ok += l.relaxed_ok;
+                    st.relaxed_err += l.relaxed_err;
+                    st.valid_rejected += l.valid_rejected;
+                    st.text_roundtrips += l.text_roundtrips;
+                    f.flush(ctx);
+                }
+                for cls in ["0", "1", "mid", "octet", "max-1", "max", "beyond"] {
+                    ctx.sig(&format!("ctor {} len-class={cls} host-bits=zero|low|high|as-given strict+relaxed+text", if v6 { "v6" } else { "v4" }));
+                }
+            }
+        }
+        evals += st.evals;
+        ctx.obs("prefix_strict_accepted", st.strict_ok);
+        ctx.obs("prefix_strict_rejected", st.strict_err);
+        ctx.obs("prefix_relaxed_accepted", st.relaxed_ok);
+        ctx.obs("prefix_relaxed_rejected", st.relaxed_err);
+        ctx.obs("prefix_text_roundtrips", st.text_roundtrips);
+        ctx.obs("valid_input_rejected", st.valid_rejected);
+        if st.valid_rejected > 0 {
+            ctx.notes.push("a constructor rejected an input with length in range (and zero host bits for strict); the statement does not oblige acceptance, recorded only".into());
+        }
+        if ctx.shard == 0 {
+            ctx.sample("constructor", || {
+                let a = Ipv4Addr::new(10, 1, 2, 3);
+                json!({
+                    "addr": "10.1.2.3", "len": 16,
+                    "strict": format!("{:?}", Prefix::new_v4(a, 16).map(|p| p.to_string())),
+                    "relaxed": format!("{:?}", Prefix::new_v4_relaxed(a, 16).map(|p| p.to_string())),
+                    "len_33": format!("{:?}", Prefix::new_v4_relaxed(a, 33).map(|p| p.to_string())),
+                })
+            });
+        }
+    }
+
+    //---- 2. covers / order on the boundary-dense domain ----------------------
+    let mut rejected = 0u64;
+    let dom = build_domain(size, &mut rejected);
+    let n = dom.len();
+    ctx.obs_max("prefix_domain", n as u64);
+    if rejected > 0 {
+        ctx.obs("domain_members_rejected", rejected);
+        ctx.notes.push("some host-free domain prefixes were rejected by Prefix::new and are missing from the pair/triple domain".into());
+    }
+    {
+        // full comparison matrix (every shard needs it for the triples; n^2 is small)
+        let mut cmp = vec![0i8; n * n];
+        let (shard, nshards) = (ctx.shard as usize, ctx.nshards.max(1) as usize);
+        let miri = ctx.is_miri();
+        let res = ctx.no_panic("prefix-pairs", || json!({"domain": n}), || {
+            let mut f = Findings::default();
+            let mut sigs: HashSet<String> = HashSet::new();
+            let mut cover_pairs = 0u64;
+            let mut pairs = 0u64;
+            for i in 0..n {
+                for j in 0..n {
+                    let (a, b) = (&dom[i], &dom[j]);
+                    let c = a.p.cmp(&b.p);
+                    cmp[i * n + j] = ord_i8(c);
+                    // every shard needs the whole matrix for its triples, but judges only its own rows
+                    if i % nshards != shard {
+                        continue;
+                    }
+                    pairs += 1;
+                    let d = || json!({"a": a.m.text(), "b": b.m.text()});
+                    // covers <=> range inclusion
+                    let cov = a.p.covers(b.p);
+                    let want = a.m.covers(&b.m);
+                    if cov != want {
+                        f.push(
+                            if want { "C13:covers-misses-included-range" } else { "C13:covers-claims-excluded-range" },
+                            format!("a.covers(b) = {cov}, range inclusion says {want}"),
+                            d(),
+                        );
+                    }
+                    if want {
+                        cover_pairs += 1;
+                    }
+                    // order consistent with equality and hashing
+                    let eq = a.p == b.p;
+                    if eq != (a.m == b.m) {
+                        f.push("C13:prefix-eq-vs-model", format!("(a == b) = {eq}"), d());
+                    }
+                    if (c == Ordering::Equal) != eq {
+                        f.push("C13:prefix-cmp-equal-vs-eq", format!("cmp = {c:?} but (a == b) = {eq}"), d());
+                    }
+                    if eq && a.hash != b.hash {
+                        f.push("C13:prefix-eq-hash", "equal prefixes hash differently".into(), d());
+                    }
+                    if a.p.partial_cmp(&b.p) != Some(c) || (a.p < b.p) != (c == Ordering::Less) || (a.p > b.p) != (c == Ordering::Greater) {
+                        f.push("C13:prefix-partial_cmp-vs-cmp", "partial_cmp / operators disagree with cmp".into(), d());
+                    }
+                    // more specific before any prefix covering it
+                    if want && a.m != b.m && c != Ordering::Greater {
+                        f.push("C13:prefix-order-covering-not-after-more-specific", format!("a covers b but cmp(a,b) = {c:?}"), d());
+                    }
+                    if (i % 7 == 0 && !miri) || want {
+                        sigs.insert(pair_sig("covers+cmp", &a.m, &b.m));
+                    }
+                }
+            }
+            // antisymmetry
+            for i in 0..n {
+                for j in 0..n {
+                    if cmp[i * n + j] != -cmp[j * n + i] {
+                        f.push("C13:prefix-order-not-antisymmetric", format!("cmp(a,b) = {}, cmp(b,a) = {}", cmp[i * n + j], cmp[j * n + i]),
+                            json!({"a": dom[i].m.text(), "b": dom[j].m.text()}));
+                    }
+                }
+            }
+            (f, sigs, cover_pairs, pairs)
+        });
+        if let Some((f, sigs, cover_pairs, pairs)) = res {
+            evals += 2 * pairs;
+            ctx.obs("prefix_pairs", pairs);
+            ctx.obs("prefix_covering_pairs", cover_pairs);
+            for s in sigs {
+                ctx.sig(&s);
+            }
+            f.flush(ctx);
+        }
+        // all triples, rows split across shards
+        let mut f = Findings::default();
+        let triples = transitivity(n, &cmp, |i| i % nshards == shard, "C13:prefix-order-not-transitive", |i| dom[i].m.text(), &mut f);
+        evals += triples;
+        ctx.obs("prefix_triples", triples);
+        f.flush(ctx);
+        ctx.sig("transitivity all triples of the prefix domain");
+        // the sorted domain puts every prefix after all the prefixes it covers
+        if ctx.shard == 0 {
+            let mut sorted: Vec<usize> = (0..n).collect();
+            sorted.sort_by(|&i, &j| dom[i].p.cmp(&dom[j].p));
+            let mut f = Findings::default();
+            for (pos, &i) in sorted.iter().enumerate() {
+                for &j in &sorted[pos + 1..] {
+                    if dom[i].m.covers(&dom[j].m) && dom[i].m != dom[j].m {
+                        f.push("C13:prefix-order-covering-not-after-more-specific", "sorting places a covering prefix before a more specific one".into(),
+                            json!({"covering": dom[i].m.text(), "more_specific": dom[j].m.text()}));
+                    }
+                }
+            }
+            evals += n as u64;
+            f.flush(ctx);
+            let v4_first = sorted.iter().position(|&i| dom[i].m.v6).map(|p| sorted[p..].iter().all(|&i| dom[i].m.v6)).unwrap_or(true);
+            ctx.obs("sorted_domain_v4_before_v6", v4_first as u64);
+            ctx.sample("sorted domain (first, middle, last)", || json!([
+                dom[sorted[0]].p.to_string(), dom[sorted[n / 2]].p.to_string(), dom[sorted[n - 1]].p.to_string()
+            ]));
+            ctx.sample("covers", || {
+                let a = Prefix::from_str("10.0.0.0/8").unwrap();
+                let b = Prefix::from_str("10.128.0.0/9").unwrap();
+                json!({"a": "10.0.0.0/8", "b": "10.128.0.0/9", "a_covers_b": a.covers(b), "b_covers_a": b.covers(a), "cmp_a_b": format!("{:?}", a.cmp(&b))})
+            });
+        }
+    }
+
+    //---- 3. random families of related prefixes ------------------------------
+    {
+        let mut rng = ctx.rng("families");
+        let nfam = ctx.stage_budget((240_000, 8_000_000), 20_000, 4, 0);
+        let mut fam_evals = 0u64;
+        let res = ctx.no_panic("prefix-families", || json!({"families": nfam}), || {
+            let mut f = Findings::default();
+            let mut sigs: HashSet<String> = HashSet::new();
+            for fi in 0..nfam {
+                let v6 = rng.bool();
+                let w = fam_max(v6);
+                let addr = if v6 { rng.next_u128() } else { rng.next_u32() as u128 };
+                let len = match rng.below(4) {
+                    0 => *rng.pick(&[0u8, 1, 2, 7, 8, 9, 31, 32, 33, 63, 64, 65, 127, 128]).min(&w),
+                    1 => w - rng.below(3) as u8,
+                    _ => rng.below(w as u64 + 1) as u8,
+                };
+                let mut ms = vec![MP::new_masked(v6, addr, len)];
+                if len > 0 {
+                    ms.push(MP::new_masked(v6, addr, len - 1));
+                    ms.push(MP::new_masked(v6, addr, rng.below(len as u64) as u8));
+                    ms.push(MP { v6, bits: ms[0].bits ^ (1u128 << (w - len)), len }); // sibling
+                }
+                if len < w {
+                    ms.push(MP::new_masked(v6, addr, len + 1));
+                    ms.push(MP::new_masked(v6, addr | (1u128 << (w - len - 1)), len + 1));
+                    ms.push(MP::new_masked(v6, addr, w));
+                }
+                ms.push(MP::new_masked(v6, if v6 { rng.next_u128() } else { rng.next_u32() as u128 }, rng.below(w as u64 + 1) as u8));
+                // same bits in the other family's width, to cross families
+                let ov6 = !v6;
+                ms.push(MP::new_masked(ov6, if ov6 { addr << 96 | addr } else { addr >> 96 }, len.min(fam_max(ov6))));
+                let ps: Vec<(MP, Prefix)> = ms.iter().filter_map(|m| Prefix::new(m.addr(), m.len).ok().map(|p| (*m, p))).collect();
+                let k = ps.len();
+                let mut cmp = vec![0i8; k * k];
+                for i in 0..k {
+                    for j in 0..k {
+                        let (a, b) = (&ps[i], &ps[j]);
+                        let c = a.1.cmp(&b.1);
+                        cmp[i * k + j] = ord_i8(c);
+                        let d = || json!({"a": a.0.text(), "b": b.0.text()});
+                        let want = a.0.covers(&b.0);
+                        let cov = a.1.covers(b.1);
+                        if cov != want {
+                            f.push(
+                                if want { "C13:covers-misses-included-range" } else { "C13:covers-claims-excluded-range" },
+                                format!("a.covers(b) = {cov}, range inclusion says {want}"),
+                                d(),
+                            );
+                        }
+                        let eq = a.1 == b.1;
+                        if eq != (a.0 == b.0) {
+                            f.push("C13:prefix-eq-vs-model", format!("(a == b) = {eq}"), d());
+                        }
+                        if (c == Ordering::Equal) != eq {
+                            f.push("C13:prefix-cmp-equal-vs-eq", format!("cmp = {c:?} but (a == b) = {eq}"), d());
+                        }
+                        if eq && hash_of(&a.1) != hash_of(&b.1) {
+                            f.push("C13:prefix-eq-hash", "equal prefixes hash differently".into(), d());
+                        }
+                        if want && a.0 != b.0 && c != Ordering::Greater {
+                            f.push("C13:prefix-order-covering-not-after-more-specific", format!("a covers b but cmp(a,b) = {c:?}"), d());
+                        }
+                        if fi < 4_000 {
+                            sigs.insert(pair_sig("random covers+cmp", &a.0, &b.0));
+                        }
+                    }
+                }
+                for i in 0..k {
+                    for j in 0..k {
+                        if cmp[i * k + j] != -cmp[j * k + i] {
+                            f.push("C13:prefix-order-not-antisymmetric", "cmp(a,b) is not the reverse of cmp(b,a)".into(),
+                                json!({"a": ps[i].0.text(), "b": ps[j].0.text()}));
+                        }
+                    }
+                }
+                let t = transitivity(k, &cmp, |_| true, "C13:prefix-order-not-transitive", |i| ps[i].0.text(), &mut f);
+                fam_evals += (k * k) as u64 + t;
+            }
+            (f, sigs)
+        });
+        if let Some((f, sigs)) = res {
+            for s in sigs {
+                ctx.sig(&s);
+            }
+            f.flush(ctx);
+        }
+        evals += fam_evals;
+        ctx.obs("random_prefix_families", nfam);
+    }
+
+    //---- 4. max-length prefixes ----------------------------------------------
+    // every prefix of a sub-domain x every max-len 0..=255 and None
+    let sub: Vec<&DomEntry> = {
+        let step = match size {
+            0 => 9,
+            1 => 5,
+            _ => 3,
+        };
+        dom.iter().enumerate().filter(|(i, e)| i % step == 0 || e.m.len == 0 || e.m.len == fam_max(e.m.v6)).map(|(_, e)| e).collect()
+    };
+    {
+        let mut ok = 0u64;
+        let mut err = 0u64;
+        let mut sat_clamped = 0u64;
+        let mut sat_not_nearest = 0u64;
+        let mut in_range_rejected = 0u64;
+        let mut n_ml = 0u64;
+        let miri = ctx.is_miri();
+        for (pi, e) in sub.iter().enumerate() {
+            if !ctx.mine(pi as u64) {
+                continue;
+            }
+            let res = ctx.no_panic("maxlen-constructors", || json!({"prefix": e.m.text()}), || {
+                let mut f = Findings::default();
+                let mut st = (0u64, 0u64, 0u64, 0u64, 0u64, 0u64);
+                let w = fam_max(e.m.v6);
+                let fam = if e.m.v6 { "v6" } else { "v4" };
+                let mls: Vec<Option<u8>> = std::iter::once(None)
+                    .chain((0..=255u8).map(Some))
+                    .filter(|ml| match ml {
+                        // Miri: boundaries only
+                        Some(m) if miri => {
+                            let (m, l) = (*m as i32, e.m.len as i32);
+                            m <= 1 || (m - l).abs() <= 1 || (m - 32).abs() <= 1 || (m - 128).abs() <= 1 || m >= 254
+                        }
+                        _ => true,
+                    })
+                    .collect();
+                for ml in mls {
+                    st.5 += 1;
+                    let d = || json!({"prefix": e.m.text(), "max_len": ml});
+                    let valid = ml.map(|m| e.m.len <= m && m <= w).unwrap_or(true);
+                    match MaxLenPrefix::new(e.p, ml) {
+                        Ok(mp) => {
+                            st.0 += 1;
+                            if !valid {
+                                let m = ml.unwrap();
+                                f.push(
+                                    &format!("C13:maxlen-new-{fam}:{}", if m > w { "beyond-family" } else { "below-prefix-length" }),
+                                    format!("MaxLenPrefix::new accepted max length {m} for a /{} prefix", e.m.len),
+                                    d(),
+                                );
+                            } else if mp.prefix() != e.p || mp.max_len() != ml || mp.resolved_max_len() != ml.unwrap_or(e.m.len) || mp.prefix_len() != e.m.len || mp.addr() != e.m.addr() {
+                                f.push(&format!("C13:maxlen-new-{fam}:value-differs"), format!("constructed value reports {mp:?}"), d());
+                            } else {
+                                let with_text = !miri || ml.map(|m| m as u16 <= e.m.len as u16 + 1 || m as u16 + 1 >= w as u16).unwrap_or(true);
+                                if with_text {
+                                    let text = mp.to_string();
+                                    match MaxLenPrefix::from_str(&text) {
+                                        Ok(q) if q == mp && hash_of(&q) == hash_of(&mp) => {}
+                                        other => f.push(&format!("C13:maxlen-text-roundtrip-{fam}"), format!("Display gives {text:?}, which parses back to {other:?}"), d()),
+                                    }
+                                }
+                            }
+                        }
+                        Err(_) => {
+                            st.1 += 1;
+                            if valid {
+                                st.4 += 1;
+                            } else if let Some(m) = ml {
+                                // the text form must not slip past the constructor either
+                                if !miri || m as u16 == w as u16 + 1 || m as u16 + 1 == e.m.len as u16 {
+                                    let text = format!("{}-{}", e.m.text(), m);
+                                    if let Ok(q) = MaxLenPrefix::from_str(&text) {
+                                        f.push(&format!("C13:maxlen-text-{fam}:out-of-range-accepted"), format!("from_str({text:?}) = {q}"), d());
+                                    }
+                                }
+                            }
+                        }
+                    }
+                    // saturating constructor: result within bounds, in-range input unchanged
+                    let s = MaxLenPrefix::saturating_new(e.p, ml);
+                    let got = s.max_len();
+                    if s.prefix() != e.p {
+                        f.push(&format!("C13:maxlen-saturating-{fam}:prefix-changed"), format!("saturating_new changed the prefix: {s:?}"), d());
+                    }
+                    match (ml, got) {
+                        (None, None) => {}
+                        (Some(m), Some(g)) => {
+                            if !(e.m.len <= g && g <= w) {
+                                f.push(
+                                    &format!("C13:maxlen-saturating-{fam}:{}", if g > w { "beyond-family" } else { "below-prefix-length" }),
+                                    format!("saturating_new({m}) produced max length {g} for a /{} prefix", e.m.len),
+                                    d(),
+                                );
+                            } else if valid && g != m {
+                                f.push(&format!("C13:maxlen-saturating-{fam}:in-range-value-changed"), format!("saturating_new({m}) produced {g}"), d());
+                            } else if !valid {
+                                st.2 += 1;
+                                let nearest = m.clamp(e.m.len, w);
+                                if g != nearest {
+                                    st.3 += 1;
+                                }
+                            }
+                        }
+                        (None, Some(g)) => {
+                            // inventing a max-len is acceptable only if it is the effective one
+                            if g != e.m.len {
+                                f.push(&format!("C13:maxlen-saturating-{fam}:in-range-value-changed"), format!("saturating_new(None) produced {g}"), d());
+                            }
+                        }
+                        (Some(m), None) => {
+                            if valid && m != e.m.len {
+                                f.push(&format!("C13:maxlen-saturating-{fam}:in-range-value-changed"), format!("saturating_new({m}) dropped the max length"), d());
+                            }
+                        }
+                    }
+                    if s.resolved_max_len() < e.m.len || s.resolved_max_len() > w {
+                        f.push(&format!("C13:maxlen-saturating-{fam}:effective-out-of-bounds"), format!("effective max length {}", s.resolved_max_len()), d());
+                    }
+                }
+                (f, st)
+            });
+            if let Some((f, st)) = res {
+                ok += st.0;
+                err += st.1;
+                sat_clamped += st.2;
+                sat_not_nearest += st.3;
+                in_range_rejected += st.4;
+                n_ml += st.5;
+                f.flush(ctx);
+            }
+            ctx.sig(&format!("maxlen {} prefix-len-class={} x every max-len 0..=255/None new+saturating+text", if e.m.v6 { "v6" } else { "v4" }, len_class(e.m.v6, e.m.len)));
+        }
+        evals += 2 * n_ml;
+        ctx.obs("maxlen_new_accepted", ok);
+        ctx.obs("maxlen_new_rejected", err);
+        ctx.obs("maxlen_saturating_clamped", sat_clamped);
+        ctx.obs("maxlen_saturating_clamped_not_to_nearest_bound", sat_not_nearest);
+        ctx.obs("valid_input_rejected", in_range_rejected);
+        if ctx.shard == 0 {
+            ctx.sample("max-len prefix", || {
+                let p = Prefix::from_str("192.0.2.0/24").unwrap();
+                json!({
+                    "prefix": "192.0.2.0/24",
+                    "new(Some(23))": format!("{:?}", MaxLenPrefix::new(p, Some(23)).map(|m| m.to_string())),
+                    "new(Some(32))": format!("{:?}", MaxLenPrefix::new(p, Some(32)).map(|m| m.to_string())),
+                    "new(Some(33))": format!("{:?}", MaxLenPrefix::new(p, Some(33)).map(|m| m.to_string())),
+                    "saturating_new(Some(200))": MaxLenPrefix::saturating_new(p, Some(200)).to_string(),
+                    "saturating_new(Some(3))": MaxLenPrefix::saturating_new(p, Some(3)).to_string(),
+                })
+            });
+        }
+    }
+
+    //---- 5. MaxLenPrefix order and RouteOrigin Eq/Ord/Hash --------------------
+    {
+        // elements: (model prefix, max_len option, asn)
+        let asns: [u32; 3] = [0, 1, u32::MAX];
+        let step = match size {
+            0 => 4,
+            1 => 3,
+            _ => 5,
+        };
+        let mut items: Vec<(MP, Option<u8>, u32, MaxLenPrefix, RouteOrigin)> = Vec::new();
+        for (si, e) in sub.iter().enumerate() {
+            if si % step != 0 {
+                continue;
+            }
+            let w = fam_max(e.m.v6);
+            let mut mls: Vec<Option<u8>> = vec![None, Some(e.m.len), Some(w)];
+            if e.m.len < w {
+                mls.push(Some(e.m.len + 1));
+            }
+            mls.dedup();
+            for ml in mls {
+                if let Ok(mp) = MaxLenPrefix::new(e.p, ml) {
+                    for &a in &asns {
+                        items.push((e.m, ml, a, mp, RouteOrigin::new(mp, Asn::from_u32(a))));
+                    }
+                }
+            }
+        }
+        let k = items.len();
+        ctx.obs_max("route_origin_domain", k as u64);
+        let (shard, nshards) = (ctx.shard as usize, ctx.nshards.max(1) as usize);
+        let mut cmp_ro = vec![0i8; k * k];
+        let mut cmp_ml = vec![0i8; k * k];
+        let res = ctx.no_panic("route-origin-pairs", || json!({"domain": k}), || {
+            let mut f = Findings::default();
+            let hashes: Vec<(u64, u64)> = items.iter().map(|it| (hash_of(&it.3), hash_of(&it.4))).collect();
+            let mut eq_pairs = 0u64;
+            let mut lex_agree = 0u64;
+            let mut lex_disagree = 0u64;
+            let mut ml_not_prefix_first = 0u64;
+            let mut pairs = 0u64;
+            for i in 0..k {
+                for j in 0..k {
+                    let (a, b) = (&items[i], &items[j]);
+                    let d = || json!({
+                        "a": {"prefix": a.0.text(), "max_len": a.1, "asn": a.2},
+                        "b": {"prefix": b.0.text(), "max_len": b.1, "asn": b.2},
+                    });
+                    // RouteOrigin: compares by prefix, effective max length, ASN
+                    let c = a.4.cmp(&b.4);
+                    cmp_ro[i * k + j] = ord_i8(c);
+                    let cm = a.3.cmp(&b.3);
+                    cmp_ml[i * k + j] = ord_i8(cm);
+                    if i % nshards != shard {
+                        continue;
+                    }
+                    pairs += 1;
+                    let eff = |x: &(MP, Option<u8>, u32, MaxLenPrefix, RouteOrigin)| x.1.unwrap_or(x.0.len);
+                    let want_eq = a.0 == b.0 && eff(a) == eff(b) && a.2 == b.2;
+                    let eq = a.4 == b.4;
+                    if eq != want_eq {
+                        f.push("C13:route-origin-eq-vs-model", format!("(a == b) = {eq}; prefix, effective max length and ASN are {}", if want_eq { "equal" } else { "not all equal" }), d());
+                    }
+                    if (c == Ordering::Equal) != eq {
+                        f.push("C13:route-origin-cmp-equal-vs-eq", format!("cmp = {c:?} but (a == b) = {eq}"), d());
+                    }
+                    if eq && hashes[i].1 != hashes[j].1 {
+                        f.push("C13:route-origin-eq-hash", "equal route origins hash differently".into(), d());
+                    }
+                    if a.4.partial_cmp(&b.4) != Some(c) {
+                        f.push("C13:route-origin-partial_cmp-vs-cmp", "partial_cmp disagrees with cmp".into(), d());
+                    }
+                    if want_eq {
+                        eq_pairs += 1;
+                    }
+                    // the prefix is the primary key
+                    if a.0 != b.0 {
+                        let pc = a.3.prefix().cmp(&b.3.prefix());
+                        if c != pc {
+                            f.push("C13:route-origin-order-prefix-not-primary", format!("prefixes compare {pc:?} but the route origins {c:?}"), d());
+                        }
+                    } else {
+                        // recorded only: ascending (effective max length, ASN)
+                        let lex = eff(a).cmp(&eff(b)).then(a.2.cmp(&b.2));
+                        if lex == c { lex_agree += 1 } else { lex_disagree += 1 }
+                    }
+                    // MaxLenPrefix order laws
+                    let eqm = a.3 == b.3;
+                    if eqm != (a.0 == b.0 && a.1 == b.1) {
+                        f.push("C13:maxlen-eq-vs-model", format!("(a == b) = {eqm}"), d());
+                    }
+                    if (cm == Ordering::Equal) != eqm {
+                        f.push("C13:maxlen-cmp-equal-vs-eq", format!("cmp = {cm:?} but (a == b) = {eqm}"), d());
+                    }
+                    if eqm && hashes[i].0 != hashes[j].0 {
+                        f.push("C13:maxlen-eq-hash", "equal max-length prefixes hash differently".into(), d());
+                    }
+                    if a.0 != b.0 && cm != a.3.prefix().cmp(&b.3.prefix()) {
+                        // documented, but not part of the statement: recorded only
+                        ml_not_prefix_first += 1;
+                    }
+                }
+            }
+            for i in 0..k {
+                for j in 0..k {
+                    if cmp_ro[i * k + j] != -cmp_ro[j * k + i] {
+                        f.push("C13:route-origin-order-not-antisymmetric", "cmp(a,b) is not the reverse of cmp(b,a)".into(),
+                            json!({"a": format!("{:?}", items[i].4), "b": format!("{:?}", items[j].4)}));
+                    }
+                    if cmp_ml[i * k + j] != -cmp_ml[j * k + i] {
+                        f.push("C13:maxlen-order-not-antisymmetric", "cmp(a,b) is not the reverse of cmp(b,a)".into(),
+                            json!({"a": items[i].3.to_string(), "b": items[j].3.to_string()}));
+                    }
+                }
+            }
+            (f, eq_pairs, lex_agree, lex_disagree, pairs, ml_not_prefix_first)
+        });
+        if let Some((f, eq_pairs, la, ld, pairs, mlnp)) = res {
+            ctx.obs("maxlen_prefix_pairs_not_ordered_by_prefix_first", mlnp);
+            evals += 2 * pairs;
+            ctx.obs("route_origin_pairs", pairs);
+            ctx.obs("route_origin_equal_pairs", eq_pairs);
+            ctx.obs("route_origin_same_prefix_pairs_ordered_by_ascending_maxlen_then_asn", la);
+            ctx.obs("route_origin_same_prefix_pairs_ordered_otherwise", ld);
+            f.flush(ctx);
+        }
+        let mut f = Findings::default();
+        let name_ro = |i: usize| format!("{} max_len={:?} AS{}", items[i].0.text(), items[i].1, items[i].2);
+        let t1 = transitivity(k, &cmp_ro, |i| i % nshards == shard, "C13:route-origin-order-not-transitive", name_ro, &mut f);
+        let t2 = transitivity(k, &cmp_ml, |i| i % nshards == shard, "C13:maxlen-order-not-transitive", name_ro, &mut f);
+        evals += t1 + t2;
+        ctx.obs("route_origin_triples", t1);
+        f.flush(ctx);
+        for cls in ["none-vs-explicit-equal-maxlen", "different-maxlen", "different-asn", "different-prefix", "other-family"] {
+            ctx.sig(&format!("route-origin eq/ord/hash {cls}"));
+            ctx.sig(&format!("maxlen-prefix ord {cls}"));
+        }
+        if ctx.shard == 0 {
+            ctx.sample("route origin", || {
+                let p = Prefix::from_str("2001:db8::/32").unwrap();
+                let a = RouteOrigin::new(MaxLenPrefix::new(p, None).unwrap(), Asn::from_u32(64496));
+                let b = RouteOrigin::new(MaxLenPrefix::new(p, Some(32)).unwrap(), Asn::from_u32(64496));
+                json!({"a": "2001:db8::/32 AS64496", "b": "2001:db8::/32-32 AS64496", "eq": a == b, "cmp": format!("{:?}", a.cmp(&b)), "hash_eq": hash_of(&a) == hash_of(&b)})
+            });
+        }
+    }
+
+    //---- 6. AS numbers: text, small sets ---------------------------------------
+    {
+        // text round trip
+        let mut rng = ctx.rng("asn");
+        let mut vals: Vec<u32> = vec![0, 1, 9, 10, 65535, 65536, 4_199_999_999, u32::MAX - 1, u32::MAX];
+        let extra = ctx.stage_budget((20_000, 1_000_000), 5_000, 8, 0);
+        for _ in 0..extra {
+            vals.push(rng.next_u32() >> rng.below(32));
+        }
+        let res = ctx.no_panic("asn-text", || json!({"values": vals.len()}), || {
+            let mut f = Findings::default();
+            for &v in &vals {
+                let a = Asn::from_u32(v);
+                let text = a.to_string();
+                match Asn::from_str(&text) {
+                    Ok(b) if b == a && b.into_u32() == v => {}
+                    other => f.push("C13:asn-text-roundtrip", format!("Display gives {text:?}, which parses back to {other:?}"), json!({"asn": v})),
+                }
+            }
+            f
+        });
+        if let Some(f) = res {
+            evals += vals.len() as u64;
+            f.flush(ctx);
+        }
+        ctx.sig("asn text round trip boundary+random");
+    }
+    {
+        let alphabet: &[u32] = if ctx.is_miri() { &[0, 1, u32::MAX] } else { &[0, 1, 2, u32::MAX] };
+        let max_len = match (ctx.stage, ctx.tier) {
+            (Stage::Miri, _) => 2,
+            (Stage::Native, Tier::Thorough) => 5,
+            _ => 4,
+        };
+        // all sequences (with repeats) up to max_len
+        let mut seqs: Vec<Vec<u32>> = vec![vec![]];
+        let mut start = 0;
+        for _ in 0..max_len {
+            let end = seqs.len();
+            for i in start..end {
+                for &a in alphabet {
+                    let mut s = seqs[i].clone();
+                    s.push(a);
+                    seqs.push(s);
+                }
+            }
+            start = end;
+        }
+        let mut rng = ctx.rng("asnsets");
+        let nrand = match (ctx.stage, ctx.tier) {
+            (Stage::Miri, _) => 3,
+            (Stage::Native, Tier::Thorough) => 600,
+            _ => 150,
+        };
+        for _ in 0..nrand {
+            let len = rng.below(40) as usize;
+            let pool: Vec<u32> = (0..rng.range(1, 12)).map(|i| match i % 4 {
+                0 => rng.below(16) as u32,
+                1 => u32::MAX - rng.below(4) as u32,
+                2 => rng.next_u32(),
+                _ => 64496 + rng.below(8) as u32,
+            }).collect();
+            seqs.push((0..len).map(|_| *rng.pick(&pool)).collect());
+        }
+        ctx.obs_max("asn_sequences", seqs.len() as u64);
+        let mut built: Vec<(BTreeSet<u32>, Option<SmallAsnSet>)> = Vec::new();
+        let mut not_sets = 0u64;
+        let mut with_dups = 0u64;
+        let res = ctx.no_panic("asnset-from-iter", || json!({"sequences": seqs.len()}), || {
+            let mut f = Findings::default();
+            let mut out = Vec::new();
+            let mut bad = 0u64;
+            let mut dups = 0u64;
+            for s in &seqs {
+                let model: BTreeSet<u32> = s.iter().copied().collect();
+                let has_dup = model.len() != s.len();
+                if has_dup {
+                    dups += 1;
+                }
+                let set = SmallAsnSet::from_iter(s.iter().map(|v| Asn::from_u32(*v)));
+                let items: Vec<u32> = set.iter().map(|a| a.into_u32()).collect();
+                let want: Vec<u32> = model.iter().copied().collect();
+                let strictly_ascending = items.windows(2).all(|w| w[0] < w[1]);
+                let mut ok = true;
+                if !strictly_ascending {
+                    ok = false;
+                    let sorted = items.windows(2).all(|w| w[0] <= w[1]);
+                    f.push(
+                        if sorted { "C13:asnset-from-iter-keeps-duplicates" } else { "C13:asnset-from-iter-not-sorted" },
+                        format!("set built from {s:?} iterates as {items:?}"),
+                        json!({"items": s, "iterates_as": items}),
+                    );
+                } else if items != want {
+                    ok = false;
+                    f.push("C13:asnset-from-iter-wrong-elements", format!("set built from {s:?} iterates as {items:?}"), json!({"items": s, "iterates_as": items}));
+                } else if set.len() != want.len() || set.is_empty() != want.is_empty() {
+                    ok = false;
+                    f.push("C13:asnset-len", format!("len() = {} for {} elements", set.len(), want.len()), json!({"items": s}));
+                }
+                if !ok {
+                    bad += 1;
+                }
+                // operations are only judged on operands that are sets
+                out.push((model, if ok { Some(set) } else { None }));
+            }
+            (f, out, bad, dups)
+        });
+        if let Some((f, out, bad, dups)) = res {
+            built = out;
+            not_sets = bad;
+            with_dups = dups;
+            f.flush(ctx);
+        }
+        // every shard builds all sets (it needs them as operands); counted once
+        if ctx.shard == 0 {
+            evals += seqs.len() as u64;
+            ctx.obs("asn_sequences_with_duplicates", with_dups);
+            ctx.obs("asn_sets_not_sorted_duplicate_free", not_sets);
+        }
+        if not_sets > 0 {
+            ctx.notes.push(format!("{not_sets} constructed AS sets were not sorted and duplicate-free; set operations were not judged on them"));
+        }
+        // all pairs x four operations
+        let mut op_evals = 0u64;
+        let mut contains_disagree = 0u64;
+        let mut unordered_outputs = 0u64;
+        let nb = built.len();
+        let miri = ctx.is_miri();
+        for i in 0..nb {
+            if !ctx.mine(i as u64) {
+                continue;
+            }
+            let res = ctx.no_panic("asnset-operations", || json!({"left": seqs[i]}), || {
+                let mut f = Findings::default();
+                let mut n = 0u64;
+                let mut cd = 0u64;
+                let mut unordered = 0u64;
+                let (lm, ls) = &built[i];
+                let ls = match ls {
+                    Some(s) => s,
+                    None => return (f, 0, 0, 0),
+                };
+                for v in [0u32, 1, 2, 3, u32::MAX] {
+                    if ls.contains(Asn::from_u32(v)) != lm.contains(&v) {
+                        cd += 1;
+                    }
+                }
+                // Miri: every second right operand (an operation costs ~50 ms there)
+                for j in (0..nb).step_by(if miri { 2 } else { 1 }) {
+                    let (rm, rs) = &built[j];
+                    let rs = match rs {
+                        Some(s) => s,
+                        None => continue,
+                    };
+                    let ops: [(&str, Vec<u32>, Vec<u32>); 4] = [
+                        ("union", ls.union(rs).map(|a| a.into_u32()).collect(), lm.union(rm).copied().collect()),
+                        ("intersection", ls.intersection(rs).map(|a| a.into_u32()).collect(), lm.intersection(rm).copied().collect()),
+                        ("difference", ls.difference(rs).map(|a| a.into_u32()).collect(), lm.difference(rm).copied().collect()),
+                        ("symmetric_difference", ls.symmetric_difference(rs).map(|a| a.into_u32()).collect(), lm.symmetric_difference(rm).copied().collect()),
+                    ];
+                    for (name, got, want) in ops.iter() {
+                        n += 1;
+                        let mut sorted = got.clone();
+                        sorted.sort();
+                        let has_dups = sorted.windows(2).any(|w| w[0] == w[1]);
+                        sorted.dedup();
+                        if &sorted != want {
+                            f.push(&format!("C13:asnset-{name}-wrong-elements"), format!("{name} yields {got:?}, mathematically {want:?}"),
+                                json!({"left": lm, "right": rm}));
+                        } else if has_dups {
+                            f.push(&format!("C13:asnset-{name}-duplicates"), format!("{name} yields {got:?}"), json!({"left": lm, "right": rm}));
+                        } else if got != want {
+                            unordered += 1;
+                        }
+                    }
+                }
+                (f, n, cd, unordered)
+            });
+            if let Some((f, n, cd, un)) = res {
+                op_evals += n;
+                contains_disagree += cd;
+                unordered_outputs += un;
+                f.flush(ctx);
+            }
+        }
+        evals += op_evals;
+        ctx.obs("asnset_operations_checked", op_evals);
+        ctx.obs("asnset_contains_disagreements", contains_disagree);
+        ctx.obs("asnset_operation_outputs_not_ascending", unordered_outputs);
+        for shape in ["empty", "single", "multi"] {
+            for rel in ["equal", "disjoint", "overlap", "subset", "superset"] {
+                ctx.sig(&format!("asnset ops left={shape} relation={rel} (all sequences over {alphabet:?} up to length {max_len}, with repeats)"));
+            }
+        }
+        ctx.sig("asnset random longer multisets");
+        if ctx.shard == 0 {
+            ctx.sample("small AS set", || {
+                let s = SmallAsnSet::from_iter([1u32, 1, 0, u32::MAX, 1].iter().map(|v| Asn::from_u32(*v)));
+                let t = SmallAsnSet::from_iter([1u32, 2].iter().map(|v| Asn::from_u32(*v)));
+                json!({
+                    "from_iter([1,1,0,MAX,1])": s.iter().map(|a| a.into_u32()).collect::<Vec<_>>(),
+                    "len": s.len(),
+                    "union_with_[1,2]": s.union(&t).map(|a| a.into_u32()).collect::<Vec<_>>(),
+                    "difference_with_[1,2]": s.difference(&t).map(|a| a.into_u32()).collect::<Vec<_>>(),
+                })
+            });
+        }
+    }
+
+    ctx.evals(evals);
 }
